@@ -36,6 +36,31 @@ pub trait USet: Sized + Clone + PartialEq + std::fmt::Debug + Send + Sync + 'sta
     fn hash_words(&self) -> Option<Vec<u64>> {
         None
     }
+    // the private primitives, through the verification hooks (untyped sets only)
+    fn prim_lookfor(_k: u64, _a: &[u64], _off: u64) -> (u8, usize) {
+        unimplemented!()
+    }
+    fn prim_insert(_k: u64, _a: &mut Vec<u64>, _off: u64) -> usize {
+        unimplemented!()
+    }
+    fn prim_remove(_k: u64, _a: &mut Vec<u64>, _off: u64) -> bool {
+        unimplemented!()
+    }
+    fn prim_cab(_mx: u64) -> u64 {
+        unimplemented!()
+    }
+    fn prim_tiny_new(_v: &[u64]) -> Option<usize> {
+        unimplemented!()
+    }
+    fn prim_tiny_insert(_w: usize, _e: u64) -> Option<usize> {
+        unimplemented!()
+    }
+    fn prim_tiny_contains(_w: usize, _e: u64) -> bool {
+        unimplemented!()
+    }
+    fn prim_tiny_items(_w: usize) -> Vec<u64> {
+        unimplemented!()
+    }
     fn max_elem() -> u64;
     fn new() -> Self;
     fn wcb(cap: usize, bits: u64) -> Self;
@@ -114,8 +139,40 @@ macro_rules! nexts_body {
 }
 
 macro_rules! impl_uset {
-    ($S:ty, $T:ty, $W:expr, $name:expr, $hdr:expr, $elem:expr, $align:expr) => {
+    ($S:ty, $T:ty, $W:expr, $name:expr, $hdr:expr, $elem:expr, $align:expr, $m:ident) => {
         impl USet for $S {
+            fn prim_lookfor(k: u64, a: &[u64], off: u64) -> (u8, usize) {
+                let v: Vec<$T> = a.iter().map(|&x| x as $T).collect();
+                tinyset::$m::verif::p_lookfor(k as $T, &v, off as $T)
+            }
+            fn prim_insert(k: u64, a: &mut Vec<u64>, off: u64) -> usize {
+                let mut v: Vec<$T> = a.iter().map(|&x| x as $T).collect();
+                let r = tinyset::$m::verif::p_insert(k as $T, &mut v, off as $T);
+                *a = v.into_iter().map(|x| x as u64).collect();
+                r
+            }
+            fn prim_remove(k: u64, a: &mut Vec<u64>, off: u64) -> bool {
+                let mut v: Vec<$T> = a.iter().map(|&x| x as $T).collect();
+                let r = tinyset::$m::verif::p_remove(k as $T, &mut v, off as $T);
+                *a = v.into_iter().map(|x| x as u64).collect();
+                r
+            }
+            fn prim_cab(mx: u64) -> u64 {
+                tinyset::$m::verif::compute_array_bits(mx as $T) as u64
+            }
+            fn prim_tiny_new(v: &[u64]) -> Option<usize> {
+                let w: Vec<$T> = v.iter().map(|&x| x as $T).collect();
+                tinyset::$m::verif::tiny_new(&w)
+            }
+            fn prim_tiny_insert(w: usize, e: u64) -> Option<usize> {
+                tinyset::$m::verif::tiny_insert(w, e as $T)
+            }
+            fn prim_tiny_contains(w: usize, e: u64) -> bool {
+                tinyset::$m::verif::tiny_contains(w, e as $T)
+            }
+            fn prim_tiny_items(w: usize) -> Vec<u64> {
+                tinyset::$m::verif::tiny_items(w).into_iter().map(|x| x as u64).collect()
+            }
             const W: u32 = $W;
             const NAME: &'static str = $name;
             const HEADER: usize = $hdr;
@@ -245,5 +302,5 @@ macro_rules! impl_uset {
         }
     };
 }
-impl_uset!(SetU64, u64, 64, "SetU64", 24, 8, 8);
-impl_uset!(SetU32, u32, 32, "SetU32", 12, 4, 4);
+impl_uset!(SetU64, u64, 64, "SetU64", 24, 8, 8, setu64);
+impl_uset!(SetU32, u32, 32, "SetU32", 12, 4, 4, setu32);
